@@ -417,7 +417,9 @@ func (f *Frame) extern(c *cursor, site ssa.Instruction, name string, sig *types.
 		f.typeFacts(r, sig.Results().At(0).Type(), st)
 		e.U.declareFun("rx.nsub", []Sort{SInt}, SInt)
 		mem := e.family(st, memFam(SStr), memSort(SStr))
-		el := func(i int64) Term { return sel(sel(mem, slBase(r), arraySort(SInt, SStr)), add(slOff(r), intLit(i)), SStr) }
+		el := func(i int64) Term {
+			return sel(sel(mem, slBase(r), arraySort(SInt, SStr)), add(slOff(r), intLit(i)), SStr)
+		}
 		e.assume(or(eq(r, nilSlice), and(gt(slBase(r), intLit(0)), eq(slLen(r), add(intLit(1), app(SInt, "rx.nsub", arg(0)))),
 			le(sLen(el(0)), sLen(s)), le(sLen(el(1)), sLen(s)))), r.S)
 		e.assume(ge(app(SInt, "rx.nsub", arg(0)), intLit(0)), r.S)
